@@ -18,7 +18,7 @@ pub fn property() -> Property {
     Property {
         id: "C16",
         level: "exploration",
-        rule: "Random operation sequences (<= 25 ops, values from small domains so that collisions are frequent) over {new session, clone session, every session setter, header/header_append with colliding names in mixed case, create a builder with each method, every builder setter, headers_mut, prepare, send} are executed in lock-step on the real objects and on a value model in which a builder copies its session's values at creation and nothing flows back or sideways. Header values include obs-text that is not UTF-8 and non-ASCII UTF-8. After EVERY operation the guarded settings snapshot (hook H4) of EVERY live session/builder must equal its model; every send is observed on the wire with one probe: header probe (all header fields sent vs model incl. Accept/User-Agent defaults and Accept-Encoding iff compression allowed), redirect probe (endless 302: number of requests == max_redirections+1, or 1 when following is off), (every third header probe is preceded by a send of an unrelated session that fails while its request is being written: nothing of it may appear on the probed request's connection), header-limit probe (exactly max_headers fields accepted, max_headers+1 refused), proxy probe (address dialled), plus the timeouts / TLS flags / root count handed to the connector (DialRequest). In the threads generator the objects are then distributed over 2..8 barrier-started threads that keep operating on their own clones and sending concurrently; each thread checks its objects against its own copy of the model and the parent checks that the originals did not change. Non-trivial: sequence contains >= 1 send and >= 2 live objects; distinct = hash(op sequence).",
+        rule: "Random operation sequences (<= 25 ops, values from small domains so that collisions are frequent) over {new session, clone session, every session setter, header/header_append with colliding names in mixed case, create a builder with each method, every builder setter, headers_mut, prepare, send} are executed in lock-step on the real objects and on a value model in which a builder copies its session's values at creation and nothing flows back or sideways. Header values include obs-text that is not UTF-8 and non-ASCII UTF-8. After EVERY operation the guarded settings snapshot (hook H4) of EVERY live session/builder must equal its model; every send is observed on the wire with one probe: header probe (all header fields sent vs model incl. Accept/User-Agent defaults and Accept-Encoding iff compression allowed), redirect probe (endless 302: number of requests == max_redirections+1, or 1 when following is off), (every third header probe is preceded by a send of an unrelated session that fails while its request is being written: nothing of it may appear on the probed request's connection), header-limit probe (exactly max_headers fields accepted, max_headers+1 refused), proxy probe (address dialled), plus the timeouts / TLS flags / root count handed to the connector (DialRequest). 'env-at-creation': the proxy variables are changed between the creation of a session / request / PreparedRequest and its send (3 x 3 environments x 5 kinds of object): the route is the one of the environment at creation. A set/append that is refused (line break in the value) leaves the session unchanged. In the threads generator the objects are then distributed over 2..8 barrier-started threads that keep operating on their own clones and sending concurrently; each thread checks its objects against its own copy of the model and the parent checks that the originals did not change. Non-trivial: sequence contains >= 1 send and >= 2 live objects; distinct = hash(op sequence).",
         assumptions: &["root certificates are counted, not compared", "thread schedules are whatever the OS produces (Miri adds randomised schedules in the thorough tier when available)"],
         min_nontrivial: |t| t.pick(2_000, 60_000),
         gens,
@@ -31,6 +31,7 @@ fn gens(tier: Tier) -> Vec<Gen> {
     vec![
         Gen { name: "sequences", count: tier.pick(5_000, 250_000), exhaustive: false, run: run_sequence },
         Gen { name: "threads", count: tier.pick(300, 8_000), exhaustive: false, run: run_threads },
+        Gen { name: "env-at-creation", count: (3 * 3 * 5) as u64, exhaustive: true, run: run_env_at_creation },
     ]
 }
 
@@ -401,6 +402,18 @@ fn run_ops(state: &mut State, rng: &mut Rng, nops: usize, out: &mut Vec<(String,
                 counters.push("op_clone_session");
                 state.log.push(format!("s{}=s{i}.clone()", state.sessions.len() - 1));
             }
+            2 | 3 | 4 if rng.chance(1, 8) => {
+                // a set / append that is REFUSED (a line break in the value) leaves the session as it was
+                let i = rng.usize_below(state.sessions.len());
+                let name = *rng.pick(&["X-A", "x-b", "Accept", "User-Agent", "Cookie"]);
+                let append = rng.bool();
+                let r = if append { state.sessions[i].s.try_header_append(hname(name), &b"bad\nvalue"[..]) } else { state.sessions[i].s.try_header(hname(name), &b"bad\r\nX-Injected: 1"[..]) };
+                if r.is_ok() {
+                    out.push(("illegal-header-value-accepted".into(), format!("s{i}.try_header{}({name}, <value with a line break>) returned Ok; ops: {:?}", if append { "_append" } else { "" }, state.log)));
+                }
+                counters.push("op_refused_try_header");
+                state.log.push(format!("s{i}.try_header{}({name}, <refused>)", if append { "_append" } else { "" }));
+            }
             2 | 3 | 4 => {
                 let i = rng.usize_below(state.sessions.len());
                 let op = random_setter(rng);
@@ -492,6 +505,64 @@ fn run_sequence(ctx: &mut Ctx, rng: &mut Rng, _index: u64) {
         ctx.nontrivial(format!("{log:?}").as_bytes());
     }
     ctx.sample(|| json!({"ops": log, "sessions": state.sessions.len(), "requests": state.reqs.len()}));
+}
+
+/// the proxy a session / request uses when none was set explicitly comes from the environment AS IT
+/// WAS WHEN THE OBJECT WAS CREATED: changing the variables afterwards changes nothing for objects
+/// that exist already (their clones and the requests created from them included), and applies to
+/// objects created from then on. (single-threaded generator: the environment is process-wide)
+fn run_env_at_creation(ctx: &mut Ctx, _rng: &mut Rng, index: u64) {
+    const VARS: [&str; 8] = ["http_proxy", "HTTP_PROXY", "https_proxy", "HTTPS_PROXY", "all_proxy", "ALL_PROXY", "no_proxy", "NO_PROXY"];
+    let set_env = |k: u64| {
+        for v in VARS {
+            std::env::remove_var(v);
+        }
+        match k {
+            1 => std::env::set_var("http_proxy", "http://p1.test:3128"),
+            2 => std::env::set_var("HTTP_PROXY", "http://p2.test:3128"),
+            _ => {}
+        }
+    };
+    let e1 = index % 3;
+    let e2 = (index / 3) % 3;
+    let kind = (index / 9) % 5;
+    if e1 == e2 {
+        ctx.gray();
+        return;
+    }
+    set_env(e1);
+    let url = "http://origin.test/c16";
+    // objects created under the first environment
+    let s_old = Session::new();
+    let rb_old = attohttpc::get(url);
+    let prepared_old = attohttpc::post(url).text("x").prepare();
+    set_env(e2);
+    let mut sends: Vec<(&str, u64, Box<dyn FnOnce() -> bool>)> = Vec::new();
+    match kind {
+        0 => sends.push(("request created before the change", e1, Box::new(move || rb_old.send().is_ok()))),
+        1 => sends.push(("request created AFTER the change from a session created before it", e1, Box::new(move || s_old.get(url).send().is_ok()))),
+        2 => {
+            let c = s_old.clone();
+            sends.push(("request from a clone (taken after the change) of a session created before it", e1, Box::new(move || c.put(url).send().is_ok())));
+        }
+        3 => {
+            let mut p = prepared_old;
+            sends.push(("PreparedRequest prepared before the change", e1, Box::new(move || p.send().is_ok())));
+        }
+        _ => sends.push(("request created after the change", e2, Box::new(move || attohttpc::get(url).send().is_ok()))),
+    }
+    for (what, want_env, send) in sends {
+        let world = World::install(|_, _, _| Answer::Script(vec![Step::Data(c07::OK_RESPONSE.to_vec())], WriteFaults::default()));
+        let ok = send();
+        let dialled = if world.dial_count() == 1 { world.dial(0).req.host.clone() } else { format!("<{} dials>", world.dial_count()) };
+        let want_host = ["origin.test", "p1.test", "p2.test"][want_env as usize];
+        if !ok || !dialled.contains(want_host) {
+            ctx.violation("environment-read-after-creation", format!("{what}: dialled {dialled} (send ok: {ok}), expected {want_host}; environment at creation: {}, at send time: {}", ["no proxy variables", "http_proxy=http://p1.test:3128", "HTTP_PROXY=http://p2.test:3128"][e1 as usize], ["no proxy variables", "http_proxy=http://p1.test:3128", "HTTP_PROXY=http://p2.test:3128"][e2 as usize]));
+        }
+    }
+    set_env(0);
+    ctx.count("env_changed_between_creation_and_send", 1);
+    ctx.nontrivial(format!("envc{index}").as_bytes());
 }
 
 fn run_threads(ctx: &mut Ctx, rng: &mut Rng, _index: u64) {
